@@ -87,5 +87,8 @@ FaultDefect(files, tree, fname, line) ==
     ELSE IF tree[1].kind # "error" THEN "first-not-error"
     ELSE IF \A i \in 1..Len(tree) : tree[i].kind = "error" => ~HasLocation(tree[i]) THEN "missing-location"
     ELSE IF ~FirstErrorOnLine(files, tree, fname, line) THEN "first-error-elsewhere"
+    \* the first reported error ITSELF (not only something nested in it) is located on the faulted line:
+    \* that is where the reader is sent first
+    ELSE IF HasLocation(tree[1]) /\ ~OnLine(files, tree[1], fname, line) THEN "first-message-elsewhere"
     ELSE ""
 =============================================================================
